@@ -592,6 +592,8 @@ static void px_rec_dead(struct urefcount *urefcount)
 struct px_cfg {
     int pool;           /* pool depth of every manager */
     int prepend, append, align; /* block manager; -1 default */
+    int udict_min, udict_extra; /* dictionary manager: initial size and growth step; 0 = the library's defaults. (1, 1) makes every
+                                 * attribute that is added a memory request (fault axes) */
 };
 
 static inline void px_fix_init(struct px_fix *fx, const struct px_cfg *cfg)
@@ -601,7 +603,7 @@ static inline void px_fix_init(struct px_fix *fx, const struct px_cfg *cfg)
     fx->srec = malloc(PX_MAXS * sizeof(*fx->srec));
     fx->erec = malloc(PX_MAXE * sizeof(*fx->erec));
     fx->umem_mgr = cumem_mgr_init(&fx->cumem);
-    fx->udict_mgr = udict_inline_mgr_alloc(cfg->pool, fx->umem_mgr, -1, -1);
+    fx->udict_mgr = udict_inline_mgr_alloc(cfg->pool, fx->umem_mgr, cfg->udict_min ? cfg->udict_min : -1, cfg->udict_extra ? cfg->udict_extra : -1);
     fx->uref_inner = uref_std_mgr_alloc(cfg->pool, fx->udict_mgr, 0);
     fx->uref_mgr = pxu_init(&fx->pxu, fx->uref_inner);
     fx->ubuf_mgr = ubuf_block_mem_mgr_alloc(cfg->pool, cfg->pool, fx->umem_mgr, cfg->prepend, cfg->append, cfg->align, 0);
